@@ -163,9 +163,14 @@ PROPS['C08'] = dict(
           'forallb_forall) and everything else is rejected; non-canonical/oversized remaining length, trailing bytes, invalid '
           'UTF-8 topic and a declared length beyond the receive buffer are rejected; every PUBLISH (all lengths, QoS, flags, any '
           'well-formed property list) decodes to exactly the fields sent and its property block iterates to exactly the '
-          'properties. Decoder, reader and iterator are total functions. Tied to the code by exhaustive sweeps (all byte strings '
+          'properties; a successful CONNACK is accepted exactly when none of its properties is Receive Maximum 0, a Maximum QoS '
+          'above 2 or an Assigned Client Identifier longer than 64 bytes (C08_connack_accepted_iff) - the last class is valid '
+          'MQTT 5 and REFUTES the property for it: C08_assigned_client_id_refuted, known finding K08a. Decoder, reader and '
+          'iterator are total functions. Tied to the code by exhaustive sweeps (all byte strings '
           'of length <= 2, all 256 first bytes x 1..5-byte length forms, all short UTF-8 sequences) and generated + mutated '
-          'packets through the decoder hook, the reader hook and live sessions; panics are caught (debug profile).',
+          'packets through the decoder hook, the reader hook and live sessions; panics are caught (debug profile); an '
+          'independent validator of broker packets (Python, three verdicts) demands that a certainly valid packet is never answered '
+          'with InvalidPacket, over generated valid traffic carrying every property a broker may attach.',
     note='Trusted: Coq kernel, model, extraction, harness, decode/reader hooks. No axioms. Panics inside serde / heapless / core '
          'are covered only by the differential run under catch_unwind. A genuine defect found while proving the round trip '
          '(four-byte integers above 33554431 rejected) was repaired by fix dd0420c. Observations outside the property\'s list: '
@@ -253,7 +258,7 @@ PROPS['C04'] = dict(
     codec=[('decode_gen', 1500, 20000)],
     sess=[('py_c04', 400, 6000), ('sess_c04', 300, 5000), ('sess_base', 100, 2000), ('py_edges', 200, 3000), ('py_c08', 200, 3000)],
     events='wrf', state=['srv', 'ctl', 'conn', 'live', 'sp', 'rb', 'pl'],
-    monitors=[M.mon_c04, M.mon_c08_valid, M.mon_panic],
+    monitors=[M.mon_c04, M.mon_c04_valid, M.mon_panic],
     codec_monitors=[M.mon_decode],
     title='inbound publishes delivered faithfully, acknowledged in order, QoS 2 only once',
     claim='Proved in Coq: a PUBLISH decodes to exactly the fields the broker encoded (topic, identifier, QoS, retain, DUP, all '
